@@ -38,13 +38,19 @@ def _sources(case):
         # give each source its epochs in a scrambled order too
         if case.get("scramble"):
             sl = sl[::-1]
+        kws = {}
+        if case.get("nosort"):
+            # sources built with the public sort=False flag, rows out of time order (reversed, then rotated by one)
+            sl = sl[::-1]
+            sl = sl[1:] + sl[:1]
+            kws["sort"] = False
         if case.get("mixed") and k % 2 == 1:
             # this survey is delivered in other (equivalent) units: velocities in m/s, errors in cm/s
             srcs.append(RVData(Time([tt[j] for j in sl], format="mjd", scale="tcb"), [vv[j] * 1000.0 for j in sl] * u.m / u.s,
-                               [ee[j] * 1e5 for j in sl] * u.cm / u.s))
+                               [ee[j] * 1e5 for j in sl] * u.cm / u.s, **kws))
         else:
             srcs.append(RVData(Time([tt[j] for j in sl], format="mjd", scale="tcb"), [vv[j] for j in sl] * u.km / u.s,
-                               [ee[j] for j in sl] * u.km / u.s))
+                               [ee[j] for j in sl] * u.km / u.s, **kws))
     return srcs, tt, vv, ee
 
 
@@ -237,11 +243,12 @@ def check_plot(case, part):
             trend = 0.05 * (np.array(tt) - float(all_data.t_ref.tcb.mjd)) + 1.0 if case["poly_trend"] == 2 else np.full(n, 1.0)
             want = np.array([vv[j] - (offs[col_of[case["assign"][j]]] if col_of[case["assign"][j]] else 0.0) - (trend[j] if case["remove_trend"] else 0.0) for j in range(n)])
         else:
-            plot_rv_curves(smp, data=data, ax=ax, apply_mean_v0_offset=True)
+            pu = {"km/s": u.km / u.s, "m/s": u.m / u.s}[case.get("rv_unit", "km/s")]
+            plot_rv_curves(smp, data=data, ax=ax, apply_mean_v0_offset=True, **({"rv_unit": pu} if case.get("rv_unit") else {}))
             y = None
             for cont in ax.containers:
                 y = np.asarray(cont[0].get_ydata())
-            want = np.array([vv[j] - (offs[col_of[case["assign"][j]]] if col_of[case["assign"][j]] else 0.0) for j in range(n)])
+            want = np.array([vv[j] - (offs[col_of[case["assign"][j]]] if col_of[case["assign"][j]] else 0.0) for j in range(n)]) * (1 * u.km / u.s).to_value(pu)
     except Exception as e:
         plt.close(fig)
         part.violation(case, f"{case['func']} raised {type(e).__name__}: {str(e)[:200]}")
@@ -277,6 +284,8 @@ def build_cases(quick, seed):
                             cases.append(dict(assign=list(f), order=list(order), form=form, scramble=scr, jit=jit, lnl=lnl))
                             if lnl and S > 1:
                                 cases.append(dict(assign=list(f), order=list(order), form=form, scramble=scr, jit=jit, lnl=lnl, mixed=True))
+                            if form in ("list", "dict_str") and not scr and n >= S + 1:
+                                cases.append(dict(assign=list(f), order=list(order), form=form, scramble=False, jit=jit, lnl=lnl and n <= 4, nosort=True))
     # identical epochs in two surveys
     for S in (2, 3):
         for n in (S, S + 1, 4):
@@ -298,6 +307,10 @@ def build_cases(quick, seed):
                         for pt_ in (1, 2):
                             cases.append(dict(kind="plot", assign=list(assign), order=list(order), form=form, scramble=False, jit=jit, func=func,
                                               poly_trend=pt_, n_rows=1 if func == "phase_fold" else 5, lnl=False, **opts))
+                            if func == "rv_curves" and form != "dict_int":
+                                # plotted in another unit than the data's
+                                cases.append(dict(kind="plot", assign=list(assign), order=list(order), form=form, scramble=False, jit=jit, func=func,
+                                                  poly_trend=pt_, n_rows=5, lnl=False, rv_unit="m/s", **opts))
     # many surveys (offset names dv0_10, dv0_11 sort before dv0_2 as strings): 12 sources, every one a different prior width
     S = 12
     for rot in (0, 5):
